@@ -540,6 +540,17 @@ def check_e(ck, repo):
         seta = [e for e in eff if e[0] == "set" and e[4] is s1]
         inc = [e for e in eff if e[0] == "ninc" and e[3] == 1]
         okf = len(setm) == 1 and len(seta) == 1 and setm[0][3] == seta[0][3] and len(inc) == 1 and inc[0][1] == setm[0][6] and _keyfun(ast.parse(setm[0][2], mode="eval").body)[0] == "ROW"
+        if not okf:
+            # the same numbering written as `n = len(mapping); mapping[leaf] = n; association[rows] = n`
+            blk = _block_of(s1)
+            names = {src_of(x.value) for x in blk if isinstance(x, ast.Assign) and isinstance(x.value, ast.Name) and isinstance(x.targets[0], ast.Subscript) and src_of(x.targets[0].value) in ("mapping", src_of(s1.targets[0].value))}
+            if len(names) == 1 and isinstance(s1.value, ast.Name) and s1.value.id in names:
+                n_ = s1.value.id
+                order = [x for x in blk if isinstance(x, ast.Assign)]
+                defs_n = [x for x in order if any(isinstance(t, ast.Name) and t.id == n_ for t in x.targets)]
+                setm2 = [x for x in order if isinstance(x.targets[0], ast.Subscript) and src_of(x.targets[0].value) == "mapping"]
+                if len(defs_n) == 1 and len(setm2) == 1 and src_of(defs_n[0].value).replace(" ", "") == "len(mapping)" and order.index(defs_n[0]) < order.index(setm2[0]) and src_of(setm2[0].value) == n_ and _keyfun(ex.norm_expr(setm2[0].targets[0].slice, mt, setm2[0]))[0] == "ROW" and not [x for x in own_nodes(mt.node) if isinstance(x, (ast.Delete,)) or (isinstance(x, ast.Call) and isinstance(x.func, ast.Attribute) and x.func.attr in ("pop", "clear", "popitem") and src_of(x.func.value) == "mapping")]:
+                    okf = True
         ck.verdict(okf, "C08.e", mt, s1, "fit stores a fresh consecutive bucket id under the leaf id and labels the leaf's rows with it", "fit does not store the bucket id under the leaf id it labels rows with, or ids are not consecutive")
         # the leaf list: nodes without children of the fitted tree, returned as leaves_
         lp = [c for c in own_nodes_incl_lambda(mt.node) if isinstance(c, ast.ListComp) and "children_left" in src_of(c)]
